@@ -536,6 +536,7 @@ type Query struct {
 	Lemmas []*LemmaInst
 	TimeoutMs int // 0: portfolio default
 	NoAxioms  bool
+	ExcludeAxiom string // name of an axiom to leave out (a theorem being proved must not assume itself)
 }
 
 // LemmaInst: a proved lemma instantiated by the generator at every ground application of its trigger symbol.
@@ -644,7 +645,7 @@ func (q *Query) Render(produceModels bool) string {
 			}
 		}
 		for i, a := range u.Axioms {
-			if axIncluded[i] || q.NoAxioms {
+			if axIncluded[i] || q.NoAxioms || (q.ExcludeAxiom != "" && a.Name == q.ExcludeAxiom) {
 				continue
 			}
 			inc := a.Always
